@@ -15,6 +15,9 @@ CONSTANTS MaxN
 AlgOfSlot(i) == CASE i % 3 = 1 -> 0 - 7 [] i % 3 = 2 -> 0 - 8 [] OTHER -> 0 - 37
 AlgV(alg) == [t |-> "alg", neg |-> TRUE, a |-> NatToArg(0 - 1 - alg)]
 Lay(i) == [P |-> <<<<GoInt("int64", 1), AlgV(AlgOfSlot(i))>>, <<GoInt("int64", 4), GoBytes(<<48 + i>>)>>>>, U |-> <<>>, sig |-> <<>>]
+\* the same signer layer as a peer with another encoder would have serialised it: protected map with its keys in the other order
+\* and a two-byte length prefix (the library keeps and signs such bytes as they are)
+LayNC(i) == Lay(i) @@ [rawP |-> Enc([Bstr(Enc(Map(<<<<ToItem(Lay(i).P[2][1]), ToItem(Lay(i).P[2][2])>>, <<ToItem(Lay(i).P[1][1]), ToItem(Lay(i).P[1][2])>>>>))) EXCEPT !.w = 2])]
 Pay == <<1, 2, 3>>
 Name(i) == "k" \o ToString(i)
 Sg(i) == [kind |-> "sym", name |-> Name(i), alg |-> AlgOfSlot(i), fault |-> ""]
@@ -42,9 +45,9 @@ CorruptSteps(obj, n, c) ==
                        [] c[i] = "copy" -> <<[op |-> "setsig", obj |-> obj, slot |-> i - 1, fromslot |-> (i % n)]>>) \o go(i + 1)
   IN go(1)
 
-Prog(n, vl, c, decoded) ==
+Prog(n, vl, c, decoded, nc) ==
   LET obj == IF decoded THEN "m2" ELSE "m" IN
-  << [op |-> "new", obj |-> "m", kind |-> "sign", m |-> [P |-> BodyP, U |-> <<>>, payload |-> Pay, sigs |-> [i \in 1..n |-> Lay(i)]]],
+  << [op |-> "new", obj |-> "m", kind |-> "sign", m |-> [P |-> BodyP, U |-> <<>>, payload |-> Pay, sigs |-> [i \in 1..n |-> IF nc THEN LayNC(i) ELSE Lay(i)]]],
      [op |-> "sign", obj |-> "m", signers |-> [i \in 1..n |-> Sg(i)]] @@ X,
      [op |-> "marshal", obj |-> "m", buf |-> "b"] >>
   \o (IF decoded THEN <<[op |-> "unmarshal", obj |-> "m2", kind |-> "sign", buf |-> "b"]>> ELSE <<>>)
@@ -74,11 +77,12 @@ NilSlotProg(n, hole, what) ==
         [] what = "verify" -> <<[op |-> "verify", obj |-> "m", verifiers |-> [i \in 1..n |-> Vf(i)]] @@ X>>)
 VARIABLE st
 Init == st = [phase |-> 0]
-PickN == st.phase = 0 /\ \E n \in 0..MaxN : \E dec \in BOOLEAN : st' = [phase |-> 1, n |-> n, dec |-> dec]
+PickN == st.phase = 0 /\ \E n \in 0..MaxN : \E dec \in BOOLEAN : \E nc \in BOOLEAN : (nc => n > 0) /\ st' = [phase |-> 1, n |-> n, dec |-> dec, nc |-> nc]
 PickV == st.phase = 1 /\ \E vl \in VerifierLists(st.n) : \E c \in Corruptions(st.n) :
            \* either explore verifier lists on the intact message or corruptions under the identity list (and a few mixed)
            (vl = Ident(st.n) \/ \A i \in 1..st.n : c[i] = "" \/ (st.n > 1 /\ vl = Rot(st.n)))
-           /\ st' = [phase |-> 2, n |-> st.n, dec |-> st.dec, vl |-> vl, c |-> [i \in 1..st.n |-> c[i]]]
+           /\ (st.nc => \A i \in 1..st.n : c[i] = "")
+           /\ st' = [phase |-> 2, n |-> st.n, dec |-> st.dec, nc |-> st.nc, vl |-> vl, c |-> [i \in 1..st.n |-> c[i]]]
 PickBad == st.phase = 0 /\ \E n \in 0..MaxN : \E hole \in 0..n : (n = 0 \/ hole > 0) /\ st' = [phase |-> 3, n |-> n, hole |-> hole]
 PickJunk == st.phase = 0 /\ \E n \in 1..MaxN : \E hole \in 1..n : \E j \in {"null", "undef", "arr0", "bstr"} : st' = [phase |-> 4, n |-> n, hole |-> hole, j |-> j]
 PickNil == st.phase = 0 /\ \E n \in 1..MaxN : \E hole \in 1..n : \E what \in {"marshal", "sign", "verify"} : st' = [phase |-> 5, n |-> n, hole |-> hole, what |-> what]
@@ -87,7 +91,7 @@ Spec == Init /\ [][Next]_st
 
 Emit ==
   CASE st.phase = 2 -> (st.n = 0 /\ st.dec) \/   \* a message without signatures cannot be serialised, hence not decoded
-         PrintT(<<"CASE", ToJson([flow |-> "verify", n |-> st.n, dec |-> st.dec, vl |-> st.vl, c |-> st.c, ext |-> X.ext, steps |-> Prog(st.n, st.vl, st.c, st.dec)])>>)
+         PrintT(<<"CASE", ToJson([flow |-> "verify", n |-> st.n, dec |-> st.dec, nc |-> st.nc, vl |-> st.vl, c |-> st.c, ext |-> X.ext, steps |-> Prog(st.n, st.vl, st.c, st.dec, st.nc)])>>)
     [] st.phase = 3 ->
          PrintT(<<"CASE", ToJson([flow |-> "baddecode", n |-> st.n, hole |-> st.hole, ext |-> <<>>,
                                   steps |-> <<[op |-> "unmarshal", obj |-> "m", kind |-> "sign", buf |-> "w", bytes |-> BadImage(st.n, st.hole)]>>])>>)
